@@ -42,7 +42,11 @@ fn run_engine(prop: &str, s: &mut Sink) {
         "C18" => schedeng::run(s),
         "C19" => helperseng::run(s),
         "C20" => dualeng::run(s),
-        "C03" => isaeng::run(s, vm::Eng::Jit),
+        "C03" => {
+            isaeng::run(s, vm::Eng::Jit);
+            // "every verifier-accepted program" includes the call-graph programs of C07
+            callseng::run_c07_jit(s, 10_000_000);
+        }
         "C04" => isaeng::run(s, vm::Eng::Cl),
         "C05" => byteseng::run(s, byteseng::Mode::C05),
         "C06" => byteseng::run(s, byteseng::Mode::C06),
